@@ -308,8 +308,10 @@ BulkCall(s, Q, a, cl) ==
     THEN LET sup == IF a.shape = "map" THEN SeqToSet(a.supply) \cap Keys(s) ELSE {}
          IN [s |-> LoadOk(s), ok |-> TRUE,
              ph |-> {MW(k, "put", a.v + k, cl, k \in Q) : k \in sup} \cup {MW(k, "del", 0, cl, TRUE) : k \in Q \ sup}]
-    ELSE [s |-> LoadKo(s), ok |-> FALSE,
-          ph |-> IF cl = "refresh" THEN {MW(k, "fail", 0, cl, TRUE) : k \in Q} ELSE {}]
+    ELSE \* the code also applies the reload-failure hook to entries of keys a failing bulk reload volunteered
+         LET extra == IF a.shape = "err" THEN SeqToSet(a.supply) \cap Keys(s) ELSE {}
+         IN [s |-> LoadKo(s), ok |-> FALSE,
+             ph |-> IF cl = "refresh" THEN {MW(k, "fail", 0, cl, TRUE) : k \in Q \cup extra} ELSE {}]
 
 RECURSIVE Lookups(_, _, _)   \* counted lookups of BulkGet, in request order
 Lookups(s, ks, acc) ==
